@@ -109,6 +109,51 @@ SearchIDm(ks, nodes, o, q) ==
           IF r[3] = -1 THEN -1 ELSE LeftMost(nodes, r[3]) >>
 
 \* ------------------------------------------------------------------------
+\* node visits (getNode calls) of the two descents, as table indexes: what a
+\* reader does to the shared structure, step by step.  The empty-label child at
+\* the end of a key is NOT visited by the descent loops.
+RECURSIVE GetIDVisitsFrom(_, _, _, _, _, _)
+GetIDVisitsFrom(ks, nodes, o, q, id, i) ==
+  LET n == nodes[id] IN
+  IF ~n.inner THEN <<id>>
+  ELSE
+    LET pre == PrefCmp(ks, o, n, q, i)
+        i2  == AfterStep(o, n, i)
+    IN IF pre # 0 \/ i2 > NibLen(q) THEN <<id>>
+       ELSE LET c  == Label(q, i2, W(n))
+                lr == LabelRank(n.labels, c)
+            IN IF ~lr[2] \/ i2 = NibLen(q) THEN <<id>>
+               ELSE <<id>> \o GetIDVisitsFrom(ks, nodes, o, q, n.first + lr[1], i2 + W(n))
+GetIDVisits(ks, nodes, o, q) == IF Len(nodes) = 0 THEN <<>> ELSE GetIDVisitsFrom(ks, nodes, o, q, 1, 0)
+
+RECURSIVE LeftMostVisits(_, _)
+LeftMostVisits(nodes, id) == IF nodes[id].inner THEN <<id>> \o LeftMostVisits(nodes, nodes[id].first) ELSE <<id>>
+RECURSIVE RightMostVisits(_, _)
+RightMostVisits(nodes, id) ==
+  IF nodes[id].inner THEN <<id>> \o RightMostVisits(nodes, nodes[id].first + Len(nodes[id].labels) - 1) ELSE <<id>>
+
+\* searchID: the descent visits the same nodes as long as the query is followed;
+\* then rightMost(l) and leftMost(r) walk down from the two candidates
+RECURSIVE SearchDescentVisits(_, _, _, _, _, _)
+SearchDescentVisits(ks, nodes, o, q, id, i) ==
+  LET n == nodes[id] IN
+  IF ~n.inner THEN <<id>>
+  ELSE
+    LET pre == PrefCmp(ks, o, n, q, i)
+        i2  == AfterStep(o, n, i)
+    IN IF pre # 0 \/ i2 > NibLen(q) THEN <<id>>
+       ELSE LET c  == Label(q, i2, W(n))
+                lr == LabelRank(n.labels, c)
+            IN IF ~lr[2] \/ i2 = NibLen(q) THEN <<id>>
+               ELSE <<id>> \o SearchDescentVisits(ks, nodes, o, q, n.first + lr[1], i2 + W(n))
+SearchVisits(ks, nodes, o, q) ==
+  IF Len(nodes) = 0 THEN <<>>
+  ELSE LET r == SearchFrom(ks, nodes, o, q, 1, 0, -1, -1) IN
+       SearchDescentVisits(ks, nodes, o, q, 1, 0)
+       \o (IF r[1] = -1 THEN <<>> ELSE RightMostVisits(nodes, r[1]))
+       \o (IF r[3] = -1 THEN <<>> ELSE LeftMostVisits(nodes, r[3]))
+
+\* ------------------------------------------------------------------------
 \* the public API on top of the ids
 LeafVal(nodes, vals, hasvals, id) ==
   IF id = -1 THEN NilV ELSE ValAt(vals, hasvals, nodes[id].key)
